@@ -92,6 +92,13 @@ def gen_tu(t):
         add('multVecMatrix%d' % d, '%s& o, const %s& v, const %s& m' % (V[n], V[n], M[d]), 'm.multVecMatrix(v, o);', spec='hvecmat', d=d, fam='hvecmat%d' % d)
         add('multDirMatrix%d' % d, '%s& o, const %s& v, const %s& m' % (V[n], V[n], M[d]), 'm.multDirMatrix(v, o);', spec='dirmat', d=d, fam='dirmat%d' % d)
     add('multDirMatrix2', '%s& o, const %s& v, const %s& m' % (V[2], V[2], M[2]), 'm.multDirMatrix(v, o);', spec='vecmat', d=2, fam='vecmat2')
+    # the (src, dst) member forms must also be right when called in place (dst aliases src): every output is
+    # computed from the *original* components
+    for d in (3, 4):
+        n = d - 1
+        add('multVecMatrix%d_inplace' % d, '%s& v, const %s& m' % (V[n], M[d]), 'm.multVecMatrix(v, v);', spec='hvecmat', d=d, inplace=True, fam='hvecmat%d' % d)
+        add('multDirMatrix%d_inplace' % d, '%s& v, const %s& m' % (V[n], M[d]), 'm.multDirMatrix(v, v);', spec='dirmat', d=d, inplace=True, fam='dirmat%d' % d)
+    add('multDirMatrix2_inplace', '%s& v, const %s& m' % (V[2], M[2]), 'm.multDirMatrix(v, v);', spec='vecmat', d=2, inplace=True, fam='vecmat2')
     add('outer3', '%s& o, const %s& a, const %s& b' % (M[3], V[3], V[3]), 'o = outerProduct(a, b);', spec='outer', d=3, fam='outer3')
     add('outer4', '%s& o, const %s& a, const %s& b' % (M[4], V[4], V[4]), 'o = outerProduct(a, b);', spec='outer', d=4, fam='outer4')
     for d in (3, 4):
